@@ -352,6 +352,27 @@ func (tt *TermTable) Eq(a, b *Term) *Term {
 			return tt.Not(a)
 		}
 	}
+	if a.sort.K == SBV {
+		// addition of a constant is a bijection modulo 2^w:
+		//   x+c1 == x+c2  <=>  c1 == c2;   x+c == x  <=>  c == 0;   x+c1 == c2  <=>  x == c2-c1
+		addc := func(t *Term) (*Term, uint64, bool) {
+			if t.op == OpAdd && t.args[1].IsConst() {
+				return t.args[0], t.args[1].c, true
+			}
+			return t, 0, false
+		}
+		xa, ca, oka := addc(a)
+		xb, cb, okb := addc(b)
+		if (oka || okb) && xa == xb {
+			return tt.Bool(ca&mask(a.sort.W) == cb&mask(a.sort.W))
+		}
+		if oka && b.IsConst() {
+			return tt.Eq(xa, tt.Const(a.sort, b.c-ca))
+		}
+		if okb && a.IsConst() {
+			return tt.Eq(xb, tt.Const(a.sort, a.c-cb))
+		}
+	}
 	if a.id > b.id {
 		a, b = b, a
 	}
@@ -459,6 +480,18 @@ func (tt *TermTable) BinBV(op Op, a, b *Term) *Term {
 		}
 		if b.IsConst() {
 			return tt.BinBV(OpAdd, a, tt.Const(a.sort, -b.c))
+		}
+		// (x + c) - x = c;  (x + c1) - (x + c2) = c1 - c2;  x - (x + c) = -c
+		if a.op == OpAdd && a.args[1].IsConst() {
+			if a.args[0] == b {
+				return tt.Const(a.sort, a.args[1].c)
+			}
+			if b.op == OpAdd && b.args[1].IsConst() && a.args[0] == b.args[0] {
+				return tt.Const(a.sort, a.args[1].c-b.args[1].c)
+			}
+		}
+		if b.op == OpAdd && b.args[1].IsConst() && b.args[0] == a {
+			return tt.Const(a.sort, -b.args[1].c)
 		}
 	case OpMul:
 		if a.IsConst() {
